@@ -20,8 +20,8 @@ var c03FlowsJSON []byte
 
 func init() {
 	register(&Check{ID: "C03", Run: runC03, Expl: oblig.Explanation{
-		Text: "Static check of the code-shape preconditions of 'commits never pass undelivered records; resume at the commit'. The property itself quantifies over histories of rebalances and faults and is not decided; each rule below is a necessary condition whose violation breaks it on some history. (R1) reviewed field-flow table (ref/fieldflows_c03.json): a commit is (msg.Topic, msg.Partition, msg.Offset+1); the OffsetCommit request carries the stash's topic → partition → offset unchanged together with the generation's group, generation id and member id; fetchOffsets files pr.Offset (or StartOffset when negative) under the partition whose id equals the response's partition id; makeAssignments gives each assigned partition offsets[topic][partition] or StartOffset when absent; the Generation is built from this join's member id, generation id, and makeAssignments(syncGroup result, fetchOffsets result); Reader.subscribe/start hand each partition reader its own (topic, partition, offset). (R2) offsetStash.merge overwrites a partition's entry only when there is none or the new offset is larger (commits never move backwards within a generation). (R3) in Generation.CommitOffsets each topic's partition list grows only from its own previous value inside a per-topic literal (no buffer shared between topics). (R4) Conn.offsetCommit and Conn.offsetFetch turn any partition's non-zero ErrorCode into a returned error, so a nil error means every partition was accepted. (R5) commitOffsetsWithRetry returns a literal nil only where the last CommitOffsets returned nil; its callers pass a positive constant retry count. (R6) both commit loops, when the generation ends, drain r.commits until empty, merge everything drained and then commit; the immediate loop answers every requester with the result of the commit that included its request; the interval loop forgets stashed offsets only after a successful commit. (R7) a synchronous CommitMessages returns what it receives on the reply channel it put in the request; it returns nil without waiting only in interval mode. (R8) nextGeneration returns the error of fetchOffsets (and of join/sync) before any Generation is built. (R9) Reader.start launches one reader per (key, offset) pair of the same map entry; unsubscribe cancels and waits for all of them; Reader.run registers with gen.Start a function that calls unsubscribe on every path, so (with C15.R1: the generation is closed, i.e. its functions awaited, before the next join) the previous generation's readers and final commit are finished before rejoining. Not decided: the history-level claim (no committed offset beyond delivered+1 under every interleaving of FetchMessage, CommitMessages, rebalances and coordinator errors), at-least-once after quiescence, broker behaviour.",
-		Rule: "one obligation per flow destination and per structural fact",
+		Text:    "Static check of the code-shape preconditions of 'commits never pass undelivered records; resume at the commit'. The property itself quantifies over histories of rebalances and faults and is not decided; each rule below is a necessary condition whose violation breaks it on some history. (R1) reviewed field-flow table (ref/fieldflows_c03.json): a commit is (msg.Topic, msg.Partition, msg.Offset+1); the OffsetCommit request carries the stash's topic → partition → offset unchanged together with the generation's group, generation id and member id; fetchOffsets files pr.Offset (or StartOffset when negative) under the partition whose id equals the response's partition id; makeAssignments gives each assigned partition offsets[topic][partition] or StartOffset when absent; the Generation is built from this join's member id, generation id, and makeAssignments(syncGroup result, fetchOffsets result); Reader.subscribe/start hand each partition reader its own (topic, partition, offset). (R2) offsetStash.merge overwrites a partition's entry only when there is none or the new offset is larger (commits never move backwards within a generation). (R3) in Generation.CommitOffsets each topic's partition list grows only from its own previous value inside a per-topic literal (no buffer shared between topics). (R4) Conn.offsetCommit and Conn.offsetFetch turn any partition's non-zero ErrorCode into a returned error, so a nil error means every partition was accepted. (R5) commitOffsetsWithRetry returns a literal nil only where the last CommitOffsets returned nil; its callers pass a positive constant retry count. (R6) both commit loops, when the generation ends, drain r.commits until empty, merge everything drained and then commit; the immediate loop answers every requester with the result of the commit that included its request; the interval loop forgets stashed offsets only after a successful commit. (R7) a synchronous CommitMessages returns what it receives on the reply channel it put in the request; it returns nil without waiting only in interval mode. (R8) nextGeneration returns the error of fetchOffsets (and of join/sync) before any Generation is built. (R9) Reader.start launches one reader per (key, offset) pair of the same map entry; unsubscribe cancels and waits for all of them; Reader.run registers with gen.Start a function that calls unsubscribe on every path, so (with C15.R1: the generation is closed, i.e. its functions awaited, before the next join) the previous generation's readers and final commit are finished before rejoining. Not decided: the history-level claim (no committed offset beyond delivered+1 under every interleaving of FetchMessage, CommitMessages, rebalances and coordinator errors), at-least-once after quiescence, broker behaviour.",
+		Rule:    "one obligation per flow destination and per structural fact",
 		Trusted: []string{"go/ssa", "value provenance", "expression shapes", "ref/fieldflows_c03.json (reviewed by reading)", "C15.R1 (generation closed before the next join)"},
 	}})
 }
@@ -48,7 +48,7 @@ func edgeConds(b *ssa.BasicBlock) []string {
 			continue
 		}
 		onTrue := pr.Succs[0] == b
-		c := iff.Cond
+		c := an.CondOf(iff)
 		for {
 			u, ok := c.(*ssa.UnOp)
 			if !ok || u.Op != token.NOT {
@@ -361,7 +361,7 @@ func c03Loops(p *load.Program, r *oblig.Report) {
 				if !isC {
 					return
 				}
-				for _, b := range fn.Blocks {
+				for _, b := range an.Blocks(fn) {
 					for _, i2 := range b.Instrs {
 						if m, isM := i2.(*ssa.Call); isM && an.StaticCalleeIs(&m.Call, merge) && an.Dominates(m, c) && m.Block() == c.Block() {
 							okOrder = true
@@ -538,7 +538,7 @@ func c03NextGeneration(p *load.Program, r *oblig.Report) {
 		if !ok || c.Call.StaticCallee() == nil {
 			return
 		}
-		switch c.Call.StaticCallee().Name() {
+		switch an.RefFuncName(c.Call.StaticCallee()) {
 		case "fetchOffsets":
 			fetch = c
 		case "makeAssignments":
@@ -615,13 +615,13 @@ func c03Readers(p *load.Program, r *oblig.Report) {
 		if mc, isMC := g.Call.Value.(*ssa.Function); isMC {
 			okRun := false
 			an.EachInstr(mc, func(i2 ssa.Instruction) {
-				if c, isC := i2.(*ssa.Call); isC && c.Call.StaticCallee() != nil && c.Call.StaticCallee().Name() == "run" {
+				if c, isC := i2.(*ssa.Call); isC && c.Call.StaticCallee() != nil && an.RefFuncName(c.Call.StaticCallee()) == "run" {
 					okRun = len(c.Call.Args) == 3 && c.Call.Args[1] == ssa.Value(mc.Params[0]) && c.Call.Args[2] == ssa.Value(mc.Params[2])
 				}
 			})
 			okDone := false
 			an.EachInstr(mc, func(i2 ssa.Instruction) {
-				if d, isD := i2.(*ssa.Defer); isD && d.Call.StaticCallee() != nil && d.Call.StaticCallee().Name() == "Done" && d.Block() == mc.Blocks[0] {
+				if d, isD := i2.(*ssa.Defer); isD && d.Call.StaticCallee() != nil && an.RefFuncName(d.Call.StaticCallee()) == "Done" && d.Block() == mc.Blocks[0] {
 					okDone = true
 				}
 			})
@@ -632,7 +632,7 @@ func c03Readers(p *load.Program, r *oblig.Report) {
 	// join.Add(len(offsetsByPartition)) before the loop
 	okAdd := false
 	an.EachInstr(start, func(ins ssa.Instruction) {
-		if c, ok := ins.(*ssa.Call); ok && c.Call.StaticCallee() != nil && c.Call.StaticCallee().Name() == "Add" {
+		if c, ok := ins.(*ssa.Call); ok && c.Call.StaticCallee() != nil && an.RefFuncName(c.Call.StaticCallee()) == "Add" {
 			okAdd = clean(an.Shape(c.Call.Args[1])) == "len(offsetsByPartition)"
 		}
 	})
@@ -642,7 +642,7 @@ func c03Readers(p *load.Program, r *oblig.Report) {
 	an.EachInstr(unsub, func(ins ssa.Instruction) {
 		if c, ok := ins.(*ssa.Call); ok {
 			if f := c.Call.StaticCallee(); f != nil {
-				seq = append(seq, f.Name())
+				seq = append(seq, an.RefFuncName(f))
 			} else {
 				seq = append(seq, clean(an.Shape(c.Call.Value)))
 			}
@@ -654,7 +654,7 @@ func c03Readers(p *load.Program, r *oblig.Report) {
 	okUnsub, okCommit := false, false
 	an.EachInstr(run, func(ins ssa.Instruction) {
 		c, ok := ins.(*ssa.Call)
-		if !ok || c.Call.StaticCallee() == nil || c.Call.StaticCallee().Name() != "Start" {
+		if !ok || c.Call.StaticCallee() == nil || an.RefFuncName(c.Call.StaticCallee()) != "Start" {
 			return
 		}
 		nStart++
@@ -666,7 +666,7 @@ func c03Readers(p *load.Program, r *oblig.Report) {
 		isCallTo := func(name string) func(ssa.Instruction) bool {
 			return func(i ssa.Instruction) bool {
 				cc, isC := i.(*ssa.Call)
-				return isC && cc.Call.StaticCallee() != nil && cc.Call.StaticCallee().Name() == name
+				return isC && cc.Call.StaticCallee() != nil && an.RefFuncName(cc.Call.StaticCallee()) == name
 			}
 		}
 		if ok2, _ := an.MustPass(f, an.EntryPoint(f), isCallTo("unsubscribe"), nil); ok2 {
@@ -680,7 +680,7 @@ func c03Readers(p *load.Program, r *oblig.Report) {
 	// subscribe precedes both
 	okSub := false
 	an.EachInstr(run, func(ins ssa.Instruction) {
-		if c, ok := ins.(*ssa.Call); ok && c.Call.StaticCallee() != nil && c.Call.StaticCallee().Name() == "subscribe" {
+		if c, ok := ins.(*ssa.Call); ok && c.Call.StaticCallee() != nil && an.RefFuncName(c.Call.StaticCallee()) == "subscribe" {
 			s := clean(an.Shape(c.Call.Args[1]))
 			okSub = strings.HasSuffix(s, ".Assignments") && strings.Contains(s, "Next(")
 		}
